@@ -471,7 +471,9 @@ kll_sketch<T, C, A> kll_sketch<T, C, A>::deserialize(std::istream& is, const Ser
     min_k = read<uint16_t>(is);
     num_levels = read<uint8_t>(is);
     read<uint8_t>(is); // skip unused byte
+    if (!is.good()) throw std::runtime_error("error reading from std::istream");
   }
+  check_k_and_num_levels(k, min_k, num_levels);
   vector_u32 levels(num_levels + 1, 0, allocator);
   const uint32_t capacity(kll_helper::compute_total_capacity(k, m, num_levels));
   if (is_single_item) {
@@ -479,8 +481,10 @@ kll_sketch<T, C, A> kll_sketch<T, C, A>::deserialize(std::istream& is, const Ser
   } else {
     // the last integer in levels_ is not serialized because it can be derived
     read(is, levels.data(), sizeof(levels[0]) * num_levels);
+    if (!is.good()) throw std::runtime_error("error reading from std::istream");
   }
   levels[num_levels] = capacity;
+  check_levels(levels, num_levels, n);
   optional<T> tmp; // space to deserialize min and max
   optional<T> min_item;
   optional<T> max_item;
@@ -556,6 +560,7 @@ kll_sketch<T, C, A> kll_sketch<T, C, A>::deserialize(const void* bytes, size_t s
     ptr += copy_from_mem(ptr, num_levels);
     ptr += sizeof(uint8_t); // skip unused byte
   }
+  check_k_and_num_levels(k, min_k, num_levels);
   vector_u32 levels(num_levels + 1, 0, allocator);
   const uint32_t capacity(kll_helper::compute_total_capacity(k, m, num_levels));
   if (is_single_item) {
@@ -566,6 +571,7 @@ kll_sketch<T, C, A> kll_sketch<T, C, A>::deserialize(const void* bytes, size_t s
     ptr += copy_from_mem(ptr, levels.data(), sizeof(levels[0]) * num_levels);
   }
   levels[num_levels] = capacity;
+  check_levels(levels, num_levels, n);
   optional<T> tmp; // space to deserialize min and max
   optional<T> min_item;
   optional<T> max_item;
@@ -881,6 +887,34 @@ void kll_sketch<T, C, A>::check_preamble_ints(uint8_t preamble_ints, uint8_t fla
       throw std::invalid_argument("Possible corruption: preamble ints must be "
           + std::to_string(PREAMBLE_INTS_FULL) + " for a sketch with more than one item: " + std::to_string(preamble_ints));
     }
+  }
+}
+
+template<typename T, typename C, typename A>
+void kll_sketch<T, C, A>::check_k_and_num_levels(uint16_t k, uint16_t min_k, uint8_t num_levels) {
+  if (k < kll_constants::MIN_K || min_k < kll_constants::MIN_K || min_k > k) {
+    throw std::invalid_argument("Possible corruption: K and min K must be >= " + std::to_string(kll_constants::MIN_K)
+        + " and min K <= K: K=" + std::to_string(k) + ", min K=" + std::to_string(min_k));
+  }
+  if (num_levels == 0) {
+    throw std::invalid_argument("Possible corruption: number of levels must be positive in a non-empty sketch");
+  }
+}
+
+// levels must be a non-decreasing sequence of offsets ending at the total capacity,
+// and the weights of the retained items must add up to n
+template<typename T, typename C, typename A>
+void kll_sketch<T, C, A>::check_levels(const vector_u32& levels, uint8_t num_levels, uint64_t n) {
+  for (uint8_t i = 0; i < num_levels; ++i) {
+    if (levels[i] > levels[i + 1]) {
+      throw std::invalid_argument("Possible corruption: level boundaries must not decrease or exceed the capacity: level "
+          + std::to_string(i) + " starts at " + std::to_string(levels[i]) + ", next boundary " + std::to_string(levels[i + 1]));
+    }
+  }
+  const uint64_t total_weight = kll_helper::sum_the_sample_weights(num_levels, levels.data());
+  if (total_weight != n) {
+    throw std::invalid_argument("Possible corruption: total weight of retained items " + std::to_string(total_weight)
+        + " does not match N " + std::to_string(n));
   }
 }
 
